@@ -6,7 +6,7 @@ C07 driver: evaluates the size functions REGENERATED from /repo (`Bee2V.Gen.C07.
 
   `deep <sizefn> <a1> ... <ak>`                      -> value
   `run <fn> <sizefn> <k> <a1..ak> <params...>`       -> `<value> ok`
-  `hl ...`                                           -> `ok`
+  `hl ...` / `co ...`                                -> `ok`
 
 The word configuration is selected by the first line `cfg W64` / `cfg W32` (answer `cfg`).
 The harness answers the same lines using the COMPILED functions of the library; a difference
@@ -39,6 +39,7 @@ def handle (w32 : Bool) : List String → String
       else "bad-op"
     | none => "bad-op"
   | "hl" :: _ => "ok"
+  | "co" :: _ => "ok"
   | _ => "bad-op"
 
 end Bee2V.C07.Drv
